@@ -474,6 +474,9 @@ def parametricity(an, rep):
                        "type_name, size_of) - in particular never on the Output / input type - so the sequence of "
                        "write_u8/write_bytes calls cannot depend on the sink")
     core = an.core()
+    from .. import callgraph
+    from .n_totality import _owner_fn
+    owner, users = _owner_fn(core, callgraph.CallGraph(core))
     n = 0
     for b in sorted(core.bodies.values(), key=lambda b: b.key):
         for bb, t, info in mir.calls(b):
@@ -482,9 +485,12 @@ def parametricity(an, rep):
                 continue
             n += 1
             fk = b.key.split("::{closure")[0]
+            root = core.bodies.get(b.raw.get("root")) if b.kind == "Closure" else b
+            us = users(root or b)          # a private helper holding the type test is accounted to the functions using it
+            in_site = fk in BYTE_SPECIALISATION_SITES or (bool(us) and all(u in BYTE_SPECIALISATION_SITES for u in us))
             targs = " ".join(a.get("s", "") for a in info["targs"])
             on_sink = "Output" in targs or "BinaryOutput" in targs or "BinaryInput" in targs
-            R.check(fk in BYTE_SPECIALISATION_SITES and not on_sink, b.key, "type test " + info["key"],
+            R.check(in_site and not on_sink, b.key, "type test " + info["key"],
                     "type-dependent branch outside the frozen byte-specialisation sites%s" %
                     (" (on the sink/source type)" if on_sink else ""), mir.loc(b, bb),
                     sample={"fn": b.key, "type_test": info["key"], "on": mir.short(targs)[:80]})
